@@ -718,7 +718,7 @@ def fixpoint_spec(chk, fx):
     chk.rule("FIXPOINT", "analyze_nterm_sets: nullable and FIRST of nonterminals as least fixpoints", 8)
     f = first_inst(fx, SA + "analyze_nterm_sets")
     cn = Canon(f)
-    whiles = [n for n in (f.body.get("c") or []) if n.get("k") == "WhileStmt"]
+    whiles = [n for n in (f.body.get("c") or []) if n.get("k") in ("WhileStmt", "DoStmt")]
     if len(whiles) != 2:
         chk.incomplete("analyze_nterm_sets: expected two fixpoint loops, found %d" % len(whiles))
     L = "gi.rule_infos[@i{0..rule_count}]"
